@@ -8,6 +8,8 @@ C13 — the admission ENTRY POINTS: what the API server stores / which requests 
   pkg/webhook/pod/mutating/cluster_colocation_profile.go shouldSkipProfile: the parse of spec.probability
         (k8s.io/apimachinery intstr.GetScaledValueFromIntOrPercent(v, 100, false): an int is taken as it is,
         a string must be "<strconv.Atoi text>%")
+  pkg/webhook/pod/mutating/cluster_colocation_profile.go clusterColocationProfileMutatingPod: which profiles are kept
+        by their namespaceSelector / selector (the evaluation of a selector is trusted, its outcome is an input)
   pkg/webhook/pod/validating/validating_handler.go  shouldIgnoreIfNotPod, validatingPodFn (the guards in
         front of the validators: sub-resource / foreign resource, DELETE without old object, decoding of
         object and old object), Handle
@@ -79,6 +81,23 @@ def probFields (v : Option IntOrStr) : Option Int × Bool := match v with
 
 def Profile.withProbability (pr : Profile) (v : Option IntOrStr) : Profile :=
   { pr with prob := (probFields v).1, probInvalid := (probFields v).2 }
+
+/-! ### profile selectors -/
+
+/-- what evaluating spec.namespaceSelector / spec.selector of a profile gives: the selector is nil, is empty (matches
+    everything, no lookup), matches, does not match, or cannot be evaluated (invalid selector, namespace lookup fails). -/
+inductive SelShape | absent | empty | matches | differs | errs
+deriving DecidableEq, Repr
+
+/-- `matched, err := h.match…Selector(…); if !matched && err == nil { continue }`: only a selector that evaluates
+    to "no match" drops the profile; an evaluation error keeps it. -/
+def selectorKeeps : SelShape → Bool
+  | .differs => false
+  | _ => true
+
+/-- the loop that builds `matchedProfiles` in clusterColocationProfileMutatingPod -/
+def Profile.withSelectors (pr : Profile) (ns obj : SelShape) : Profile :=
+  { pr with matched := selectorKeeps ns && selectorKeeps obj }
 
 /-! ### mutating entry point -/
 
